@@ -236,12 +236,13 @@ type MObj struct {
 
 // TableModel is the committed or in-transaction state of one table.
 type TableModel struct {
-	Objs map[string]MObj
-	Rev  uint64
+	Objs    map[string]MObj
+	Rev     uint64
+	Pending []string // registered initializers not yet marked done (in registration order)
 }
 
 func (m *TableModel) Clone() *TableModel {
-	c := &TableModel{Objs: make(map[string]MObj, len(m.Objs)), Rev: m.Rev}
+	c := &TableModel{Objs: make(map[string]MObj, len(m.Objs)), Rev: m.Rev, Pending: append([]string(nil), m.Pending...)}
 	for k, v := range m.Objs {
 		c.Objs[k] = v
 	}
